@@ -6,6 +6,7 @@ import LexVerif.Model.Ops.ParseInt
 import LexVerif.Model.Ops.FormatError
 import LexVerif.Model.Ops.WriteInt
 import LexVerif.Model.Ops.ParseFloat
+import LexVerif.Model.Ops.GrammarSpec
 /-!
 # Driver — line-protocol evaluator of the Lean models and specifications
 
@@ -172,7 +173,7 @@ def modelOf (feats : Features) (t : List String) : String :=
 
 /-- specification handlers consulted before `specOf` (configuration errors pre-empt value specifications) -/
 def specHandlers : List (Features → List String → Option String) :=
-  [LexVerif.Model.Ops.FormatError.spec]
+  [LexVerif.Model.Ops.FormatError.spec, LexVerif.Model.Ops.GrammarSpec.spec]
 
 def specOf' (feats : Features) (t : List String) : String :=
   (specHandlers.findSome? (fun h => h feats t)).getD (specOf feats t)
